@@ -582,7 +582,7 @@ def run(ctx: Ctx):
         cases.append((name, rec["cfg"] if rec.get("raw_keys") else _int_keys(rec["cfg"]), rec.get("digest_steps", 0)))
     # 2. generated families
     rng = ctx.rng.fork("scenarios")
-    n_gen = ctx.scale(15, 140)
+    n_gen = ctx.scale(12, 130)
     for k in range(n_gen):
         fam = G.FAMILIES[k % 3]
         cfg = G.gen_scenario(rng, size=1 + (k // 3) % 3, family=fam, shadowing=(k % 4 == 3), node_sets=False)
@@ -592,7 +592,7 @@ def run(ctx: Ctx):
         cases.append((f"gen:{k}:{fam}", cfg, steps))
     # 2b. software matrix: every software type x non-default options x declared operating state of the node
     mrng = ctx.rng.fork("matrix")
-    for k in range(ctx.scale(10, 90)):
+    for k in range(ctx.scale(9, 80)):
         cfg = G.gen_software_matrix(mrng, size=1 + k % 3)
         steps = ctx.scale(8, 16) if k % ctx.scale(5, 4) == 0 else 0
         if k % 2 == 1:
@@ -655,7 +655,7 @@ def run(ctx: Ctx):
                str(sched_bad[:2]))
     # implementation side
     agree = modelled = 0
-    env_budget = ctx.scale(8, 60)
+    env_budget = ctx.scale(6, 50)
     f31_total = 0
     for idx, (name, cfg, steps) in enumerate(cases):
         kind = name.split(":")[0]
@@ -733,7 +733,7 @@ def run(ctx: Ctx):
     # (a quoted scalar is a string in YAML's data model; the loader may insist on an integer, it may not build something else)
     qrng = ctx.rng.fork("quoted")
     pool = [(nm, cfg) for nm, cfg, _ in cases if nm.split(":")[0] in ("gen", "matrix")]
-    for nm, cfg in qrng.shuffle(pool)[: ctx.scale(3, 20)]:
+    for nm, cfg in qrng.shuffle(pool)[: ctx.scale(2, 16)]:
         game, f = _load(cfg)
         if f:
             continue
